@@ -1,9 +1,25 @@
 #!/usr/bin/env python3
 """Regenerates MANIFEST.json from the table below and validates it."""
 import json, subprocess, sys
-HOOK_COMMITS = ["94c8dd3"]
+HOOK_COMMITS = ["94c8dd3", "dc6c481", "3ebac5f"]
 # id -> dict(level, text, note, technique, design, engine, thorough(bool))
 CHECKS = {
+ "C04": dict(level="model_checking", engine="core_checks", design="§4/C04",
+   technique="explicit-state breadth-first search with exact state deduplication over the real Storage<MemoryStorage> + bounded-exhaustive lock-step operation sequences on all three back-ends, against a reference model",
+   text="(a) BFS from 3 base states over a 35-operation storage alphabet (insert, insert-at incl. beyond the end and zero-length, replace, resize, overlapping/zero-length moves, remove, optimize, reopen) to depth 4 (quick) / 6 (thorough, ~7*10^7 states), visited set keyed by a 128-bit hash of the complete state (raw bytes + record table + free lists); (b) every operation sequence of length <=3 (quick) / <=4 (thorough) executed from scratch on MemoryStorage, FileStorage and FileStorageMemoryMapped. After every operation every index is compared with a BTreeMap<index,bytes> model (whole value, size, reads at offsets, removed indexes unreadable), file length >= live content, and == exactly after optimize.",
+   note="Written bytes are a function of (state, operation) so equal states have equal futures. Values and sizes outside the alphabet are not covered. 128-bit state hashes (collision would merge states)."),
+ "C05": dict(level="model_checking", engine="core_checks", design="§4/C05",
+   technique="bounded-exhaustive query histories x every maintenance operation (and pairs) on the real database, differential oracle (full ordered dump before vs after, plus one further step)",
+   text="At every node of the history tree (all histories of <=1 (quick) / <=2 (thorough) steps over the 35-step alphabet H from 4 base states, incl. a state one insert away from rehashing the alias table) each of 9 maintenance operations (reopen same variant, reopen other file variant, optimize_storage, shrink_to_fit, backup+open, backup+open as DbMemory, copy, rename, rename+reopen) and in thorough every ordered pair is applied on DbFile, Db, DbMemory and DbAny(mapped); the full ordered observable dump (elements in id-slot order, values, keys, counts, edge counts, aliases, indexes, index searches, 4 traversals per node) must be unchanged and must still equal the never-maintained database after each of 7 further mutating steps.",
+   note="Differential oracle: trusts the dump queries to expose state. Values/keys outside the alphabet and longer histories are not covered."),
+ "C06": dict(level="model_checking", engine="core_checks", design="§4/C06",
+   technique="bounded-exhaustive query histories executed in lock-step on all six database variants of the real code, differential oracle",
+   text="Every history of <=2 (quick) / <=3 (thorough) steps over the 35-step alphabet H (inserts/updates/removals of nodes, edges, values, aliases, indexes; committing and aborted transactions; a query failing midway) from 4 base states is executed in lock-step on DbMemory, DbFile, Db and DbAny x {memory,file,mapped}; every step result (Ok payload or error text) and, at the end of every history, the full observable dump must be identical.",
+   note="Variant-independent defects are invisible to this differential oracle (they are the business of C08-C18). Values/keys outside the alphabet are not covered."),
+ "C13": dict(level="model_checking", engine="core_checks", design="§4/C13",
+   technique="bounded-exhaustive enumeration of aborted transaction bodies and partially failing queries from all states of a bounded history tree, on the real database",
+   text="From every state reached by <=1 (quick) / <=2 (thorough) steps of H from 4 base states: every transaction body of 1-2 queries over a 16-query body alphabet and every 3-query body over its 9-query core (value replacement, alias re-assignment and stealing, node removal with edges, index create/remove ...) whose closure then returns Err, and each of 10 single queries that fail after partial work. The order-insensitive canonical dump (elements, endpoints, property sets, aliases, index contents, node count) must be unchanged; every step runs under a hash-probe budget so a rollback that loops forever is reported, not waited for.",
+   note="In-memory variant copies of the start state are made with DbImpl::copy (itself checked by C05); thorough adds DbFile with replay from scratch."),
  "C01": dict(level="fault_enumeration", engine="core_checks", design="§3, §4/C01",
    technique="bounded-exhaustive operation sequences x exhaustive crash-point / torn-write / crash-in-recovery enumeration on the real FileStorage (stateless exploration with fault injector)",
    text="Every sequence of <=2 (quick) / <=3 (thorough) storage operations over a 36-op alphabet (incl. nested begin/commit, zero-length and beyond-the-end writes) from 3 base states is run on the real Storage<FileStorage>; for the last operation and for the final drop every prefix of the file-system calls, every byte-prefix of an interrupted log append (3 cut points for data writes) and every prefix of the calls recovery itself makes is turned into a crash image and reopened with FileStorage and FileStorageMemoryMapped; the recovered bytes must equal the content at the last completed outermost transaction (or, monotonically, the content after the transaction the step completes).",
